@@ -36,6 +36,8 @@ def sig_base(case, exp):
         if exp.animation:
             d["one_line"] = exp.H == 1
             d["vpad"] = exp.H > exp.h
+        if case.get("style_kw"):
+            d["style_kw"] = "+".join(sorted(case["style_kw"]))
     else:
         d.update(cls=case.get("cls", "TextR"), mode=case.get("mode", "plain"))
     return d
@@ -299,6 +301,20 @@ def build_cases(tier):
                         cases.append(dict(part="O", api="old", style=style, ident=ident, method=method, frames=frames,
                                           repeat=repeat, cached=cached, size=size, fmt=fmt, term=term, row0=row0,
                                           isatty=isatty, scroll=True))
+    # ---- part K: style-specific draw() parameters (z_index / mix / compress) of the graphics styles, stills
+    # and animations: a caller's z-index must not defeat the frame removal of an animation on any kitty version
+    kitty_kw = [dict(z_index=5), dict(z_index=-3), dict(mix=True), dict(compress=0), dict(compress=9),
+                dict(z_index=7, mix=True, compress=0)]
+    iterm_kw = [dict(mix=True), dict(compress=0), dict(compress=9), dict(mix=True, compress=9)]
+    for style, ident, method in OLD_COMBOS[1:] + KITTY_GATE:
+        for skw in (kitty_kw if style == "kitty" else iterm_kw):
+            for size, term in itertools.product([(2, 2), (1, 1)] if quick else [(2, 2), (1, 1), (3, 2), (1, 3)], terms):
+                for fmt in ((None, size[0], None, 1), (">", size[0] + 2, "_", size[1] + 1)):
+                    for frames, repeat, cached in ((1, 1, False), (2, 1, False), (3, 2, True)):
+                        for row0 in sorted({0, term[1] - 2} if quick else {0, 1, term[1] - 2, term[1] - 1}):
+                            cases.append(dict(part="K", api="old", style=style, ident=ident, method=method,
+                                              frames=frames, repeat=repeat, cached=cached, size=size, fmt=fmt,
+                                              term=term, row0=row0, isatty=True, scroll=True, style_kw=skw))
     # ---- part W: old API validation table
     for w, h in itertools.product(range(1, vt[0] + 2), range(1, vt[1] + 3)):
         for pw, ph in itertools.product((0, w, vt[0], vt[0] + 1), (-2, 1, vt[1], vt[1] + 1)):
@@ -375,7 +391,8 @@ def run(ctx):
     ctx.coverage.update(cases=len(cases), parts=dict(N="new API placement", T="new API tty settings",
                                                      V="new API validation table", O="old API placement",
                                                      W="old API validation table",
-                                                     H="old API histories: draw, resize, draw (dynamic size)"),
+                                                     H="old API histories: draw, resize, draw (dynamic size)",
+                                                     K="old API style-specific draw() parameters"),
                         terminals=sorted({tuple(c["term"]) for c in cases}),
                         old_api_combos=len(OLD_COMBOS) + len(KITTY_GATE))
     ctx.assumptions += ["vterm (vlib/vterm.py, DESIGN appendix A) is the terminal, the tty applies ONLCR",
